@@ -33,7 +33,7 @@ Section DateFacts.
   Proof.
     intros r s y m d res H.
     assert (Hr : drop_space_lits r = r \/ exists r', r = Lit 32%N :: r').
-    { destruct r as [|[| | |c] r']; try (left; reflexivity).
+    { destruct r as [|[| | | | | | | |c] r']; try (left; reflexivity).
       destruct (N.eqb_spec c 32) as [->|Hc]; [right; eexists; reflexivity|left].
       destruct c as [|p]; [reflexivity|]. do 6 (try (destruct p as [p|p|]; try reflexivity)).
       exfalso; apply Hc; reflexivity. }
@@ -44,12 +44,20 @@ Section DateFacts.
     - exists s. cbn [parse_tokens]. change (32 =? 32)%N with true. cbv iota. exact H.
   Qed.
 
+  Lemma lookup_name_range : forall tab i s v r, lookup_name tab i s = Some (v, r) -> i <= v < i + Z.of_nat (length tab).
+  Proof.
+    induction tab as [|name tab IH]; intros i s v r H; [discriminate|]. cbn [lookup_name] in H.
+    destruct (match_prefix name s) as [r0|].
+    - injection H as H1 H2. cbn [length]. lia.
+    - apply IH in H. cbn [length]. lia.
+  Qed.
+
   Lemma parse_tokens_range : forall l s y m d y' m' d',
     parse_tokens l s y m d = Some (y', m', d') -> 0 <= y -> 1 <= m <= 12 -> 0 <= y' /\ 1 <= m' <= 12.
   Proof.
     induction l as [|t l IH]; intros s y m d y' m' d' H Hy Hm; cbn [parse_tokens] in H.
     - destruct s; [|discriminate]. injection H as H1 H2 H3. lia.
-    - destruct t as [| | |c].
+    - destruct t as [| | | | | | | |c].
       + destruct (take_digits 4 s 0) as [[v s1]|] eqn:Et; [|discriminate].
         apply (IH _ _ _ _ _ _ _ H); [|exact Hm]. apply (take_digits_nonneg _ _ _ _ _ Et). lia.
       + destruct (take_digits 2 s 0) as [[v s1]|] eqn:Et; [|discriminate].
@@ -57,8 +65,21 @@ Section DateFacts.
         apply andb_true_iff in Ev. destruct Ev as [E1 E2]. apply Z.leb_le in E1, E2.
         apply (IH _ _ _ _ _ _ _ H); [exact Hy | lia].
       + destruct (take_digits 2 s 0) as [[v s1]|] eqn:Et; [|discriminate].
-        destruct ((0 <=? v) && (v <=? 31))%bool; [|discriminate].
         apply (IH _ _ _ _ _ _ _ H); assumption.
+      + destruct (get_num s) as [[v s1]|] eqn:Et; [|discriminate].
+        apply (IH _ _ _ _ _ _ _ H); assumption.
+      + destruct (get_num (drop_one_space s)) as [[v s1]|] eqn:Et; [|discriminate].
+        apply (IH _ _ _ _ _ _ _ H); assumption.
+      + destruct (get_num s) as [[v s1]|] eqn:Et; [|discriminate].
+        destruct ((1 <=? v) && (v <=? 12))%bool eqn:Ev; [|discriminate].
+        apply andb_true_iff in Ev. destruct Ev as [E1 E2]. apply Z.leb_le in E1, E2.
+        apply (IH _ _ _ _ _ _ _ H); [exact Hy | lia].
+      + destruct (lookup_name short_months 1 s) as [[v s1]|] eqn:Et; [|discriminate].
+        apply lookup_name_range in Et. cbn [length short_months] in Et.
+        apply (IH _ _ _ _ _ _ _ H); [exact Hy | lia].
+      + destruct (lookup_name long_months 1 s) as [[v s1]|] eqn:Et; [|discriminate].
+        apply lookup_name_range in Et. cbn [length long_months] in Et.
+        apply (IH _ _ _ _ _ _ _ H); [exact Hy | lia].
       + revert H. destruct (N.eqb_spec c 32) as [->|Hc]; intros H.
         * apply parse_tokens_space_step in H. destruct H as [s1 H]. apply (IH _ _ _ _ _ _ _ H); assumption.
         * destruct s as [|c' s1]; [discriminate|]. destruct (c =? c')%N; [|discriminate].
